@@ -733,6 +733,34 @@ example : startupRefuses (lit "site[1]") [lit "site[1]-00003.warc.gz-wpullinc"] 
 example : startupRefuses (lit "site") [lit "site.warc.gz", lit "other.warc-wpullinc"] = false := by decide
 
 
+
+/-! ## The class of the I/O error does not matter -/
+
+/-- `except (OSError, IOError)` catches every class of I/O error: `write_record` under errors of class
+`e` is `write_record`, whatever `e` is (ENOSPC, EIO, EACCES, EPERM, ENOENT, EINTR, EAGAIN, ETIMEDOUT, IOError). -/
+theorem writeRecordE_eq (e : IOErr) (fs : FS) (s : Sched) : writeRecordE e fs s = writeRecord fs s := by
+  unfold writeRecordE writeRecord appendAndFinishE appendAndFinish
+  simp [handlerCatches]
+
+/-- … so two runs that differ only in the class of the errors end in the same state, trace and status -/
+theorem error_class_irrelevant (e₁ e₂ : IOErr) (fs : FS) (s : Sched) :
+    writeRecordE e₁ fs s = writeRecordE e₂ fs s := by
+  rw [writeRecordE_eq, writeRecordE_eq]
+
+/-- **fault_restores for every error class**: PermissionError / FileNotFoundError / … at ANY primitive
+(open, any write after any prefix, flush, close) are rolled back exactly like ENOSPC. -/
+theorem fault_restores_any_class (e : IOErr) (fs : FS) (s : Sched) (hj : fs.journal = none)
+    (hraised : (writeRecordE e fs s).status = .raised)
+    (ho : s.ropen.isFail = false) (ht : s.rtrunc.isFail = false)
+    (hu : s.unlink.isFail = false) (hju : s.junlink.isFail = false) :
+    (writeRecordE e fs s).fs.bytes = fs.bytes ∧ (writeRecordE e fs s).fs.journal = none := by
+  rw [writeRecordE_eq] at hraised ⊢
+  exact fault_restores fs s hj hraised ho ht hu hju
+
+-- non-vacuity: EACCES from a write after 1 byte is on disk
+example : (writeRecordE .eacces ⟨some [1, 2, 3], none⟩ { awrites := [([4, 5], .fail 1)] }).fs
+    = ⟨some [1, 2, 3], none⟩ := by decide
+
 /-! ## A whole recorder life over a directory (constructor, roll-over, `close()` with the `-meta` archive)
 
 Every append is `write_record` aimed at ONE archive of the directory and at the journal next to it:
